@@ -197,7 +197,7 @@ func run(c Case) kit.Result {
 var spec = kit.Spec[Case]{
 	Prop: "C26", Name: "main",
 	Rule:  "one generated (key type, value path, sequence over uint64 classes, future EOL with nanoseconds up to year 9999, TTL class, metadata map, V1-compat/embed options): NewRecord -> accessors -> Marshal -> Unmarshal -> accessors -> Validate family; or one documented-invalid metadata entry added -> NewRecord must fail; non-trivial = sequence >= 2^63, metadata non-empty, or invalid-metadata case",
-	Quick: 4000, Thorough: 30000,
+	Quick: 4000, Thorough: 20000,
 	Gen: gen, Run: run,
 }
 
